@@ -439,6 +439,15 @@ theorem applyFilter_mirror (v : View) (hv : v.maximize = true) (env : Env) (f : 
         intro i
         simp only [List.any_map, negInd_genome]
         rfl
+  | mahalanobis =>
+    simp only [applyFilter, Option.map_some, Option.some.injEq, List.map_map]
+    apply List.map_congr_left
+    intro c _
+    simp only [Function.comp, mirrorCand_level, level_mirror, mirrorCand, Cand.mk.injEq, true_and, and_true]
+    apply filter_negInd
+    intro i
+    simp only [List.all_map, negInd_genome]
+    rfl
 
 /-- a whole chain of filters mirrors -/
 theorem applyFilters_mirror (v : View) (hv : v.maximize = true) (env : Env) (fs : List Filter) (cs : List Cand) :
